@@ -258,7 +258,7 @@ inductive Ex where
   | call (id : String)      -- `AstMethodCall`
   | dot (l r : Ex)          -- `AstBinaryOp` with `.`
   | other                   -- anything else (`eval_type` stays `None`)
-deriving Repr, Inhabited
+deriving DecidableEq, Repr, Inhabited
 
 /-- what a lookup needs to know about "now": the entity being annotated and its tables -/
 structure EC where
@@ -426,14 +426,14 @@ inductive DCtx where
   | left (id : Option String)               -- left operand of a dot: same
   | right (l : Ex) (id : Option String)     -- right operand of a dot whose left operand is `l`
   | own (id : Option String)                -- declared name of a method / a field declaration node: class-level table
-deriving Repr, Inhabited
+deriving DecidableEq, Repr, Inhabited
 
 structure Occ where
   ent   : String            -- stem of the file the request is for
   scope : Option Nat        -- index of the method whose table is nearest (none: root table)
   time  : Nat               -- number of visits made before the node's statement was walked
   ctx   : DCtx
-deriving Repr, Inhabited
+deriving DecidableEq, Repr, Inhabited
 
 def source (o : String) : Option Entity := w.find? (fun e => e.stem = o)
 
@@ -476,26 +476,27 @@ def isLocalish (k : SK) : Bool :=
 
 /-- `generate_completion_items_rhs` / `_lhs`: labels in table order -/
 def labels (keep : SK → Bool) (v : View) : List String :=
-  ((collectUnique norm v.chain).filter (fun x => match kindOf w x with | some k => keep k | none => false)).map (·.id)
+  ((collectUnique norm v.chain).filter (fun x => (kindOf w x).any keep)).map (·.id)
 
 inductive CCtx where
   | lhs                 -- not after a dot
   | rhs (l : Ex)        -- after the dot whose left operand is `l`
-deriving Repr, Inhabited
+deriving DecidableEq, Repr, Inhabited
 
 structure COcc where
   ent   : String
   scope : Option Nat
   time  : Nat
   ctx   : CCtx
-deriving Repr, Inhabited
+deriving DecidableEq, Repr, Inhabited
 
-/-- `generate_rhs_of_entity` -/
-def rhsLabels (e : Entity) (st : View) (n : String) : List String :=
+/-- `generate_rhs_of_entity`: the request's own file is answered from the class-level table of
+    its document (`own`) -/
+def rhsLabels (e : Entity) (own : View) (n : String) : List String :=
   match index norm w n with
   | none => []
   | some t =>
-    let tv := if t.stem = e.stem then st else viewRoot norm w none (rootOf norm t)
+    let tv := if t.stem = e.stem then own else viewRoot norm w none (rootOf norm t)
     labels norm w isMember tv
 
 /-- `CompletionService::generate_completion_proposals` after `search_encasing_node` -/
@@ -509,8 +510,8 @@ def completion (o : COcc) : List String :=
     | .lhs => labels norm w isLocalish st
     | .rhs l =>
       match evalEx norm w ⟨e, stAt norm e o.time⟩ l with
-      | .cls n => rhsLabels norm w e st n
-      | .mod n => rhsLabels norm w e st n
+      | .cls n => rhsLabels norm w e (viewRoot norm w none fin.root) n
+      | .mod n => rhsLabels norm w e (viewRoot norm w none fin.root) n
       | _ => []
 
 end
